@@ -100,6 +100,8 @@ class NPMixin:
         if isinstance(ix, NoneV):
             raise Unsupported('None index')
         i = self.norm_index(ix, b.shape[0], st, node)
+        if isinstance(b.term, tuple):
+            return Tup(list(b[i]))
         if b.ndim == 1:
             self.check_init(b, (i,), st, node)
             return b[i]
@@ -154,7 +156,7 @@ class NPMixin:
             a = self.lam(lambda i: b[lo + i], (n,), b.kind)
         else:
             a = self.lam(lambda i, *r: b[(lo + i,) + tuple(r)], (n,) + b.shape[1:], b.kind)
-        a.meta = dict(b.meta)
+        a.meta = dict(b.meta, slice_of=(b, lo, n))
         return self.new_obj(st, a)
 
     def strided_read(self, b, sl, st, node):
@@ -506,6 +508,15 @@ class NPMixin:
         x, y = to_z3(A), to_z3(B)
         if not (is_sym(x) and is_sym(y)):
             raise Unsupported('comparison of %r and %r' % (a, b))
+        # an integer is always below +inf (np.inf as "no limit on the number of clusters")
+        if z3.is_int(x) and z3.eq(y, INF()) and type(op) in (ast.Lt, ast.LtE, ast.NotEq):
+            return True
+        if z3.is_int(x) and z3.eq(y, INF()) and type(op) in (ast.Gt, ast.GtE, ast.Eq):
+            return False
+        if z3.is_int(y) and z3.eq(x, INF()) and type(op) in (ast.Gt, ast.GtE, ast.NotEq):
+            return True
+        if z3.is_int(y) and z3.eq(x, INF()) and type(op) in (ast.Lt, ast.LtE, ast.Eq):
+            return False
         if z3.is_bool(x) != z3.is_bool(y):
             if z3.is_bool(x): x = z3.If(x, 1, 0)
             if z3.is_bool(y): y = z3.If(y, 1, 0)
@@ -770,6 +781,8 @@ class NPMixin:
         st = st.copy()
         for g in gax:
             st.pc.append(g)
+        for nm, base, step, concl in self.lemma_terms(c, A, ghost):
+            st.pc.append(concl)      # proved where the callee's own contract is verified
         for exc, cond in allowed.items():
             cz = _z(cond) if not isinstance(cond, bool) else z3.BoolVal(cond)
             cz = z3.simplify(cz)
@@ -796,7 +809,9 @@ class NPMixin:
         N = {nm: self.wrap(v, st) for nm, v in args.items()}
         R = self.wrap(res, st)
         for name, g in c.ensures(L, A, N, R, ghost, None):
-            st.pc.append(_z(g) if not isinstance(g, bool) else z3.BoolVal(g))
+            gz = _z(g) if not isinstance(g, bool) else z3.BoolVal(g)
+            st.pc.append(gz)
+            st.facts['%s:%s' % (short, name)] = gz
         yield st, res
 
 
